@@ -37,7 +37,7 @@ def selected_groups(r, files):
 
 def gen_case(rng):
     kind = rng.choice(["clean", "transient", "required_fails", "release_fails", "independence", "hostile_index",
-                       "ignore_errors", "optional_404", "release_mismatch"])
+                       "ignore_errors", "optional_404", "release_mismatch", "optional_flaky_404"])
     nrepos = 2 if kind in ("independence", "hostile_index") or rng.random() < 0.3 else 1
     scn = P.gen_scenario(rng, nrepos=nrepos)
     return scn, {"kind": kind, "seed": rng.getrandbits(32)}
@@ -140,6 +140,15 @@ def run_case(rep, scn, case, sb: Path, tag):
         if have_release and fl:
             plan[vurl] = {p: {"first": [], "rest": "missing"} for p in fl}
             expect_ok = {r["url"] for r in scn2.repos}
+    elif kind == "optional_flaky_404":
+        # optional flavours that do not exist (404), the 404 preceded by a few transient failures
+        cns = list(victim["config"]["codenames"])
+        fl = [p for p in files2[vurl] if p.rsplit("/", 1)[-1] in ("InRelease", "Release.gpg") and p.count("/") == 2]
+        have_release = all(f"dists/{cn}/Release" in files2[vurl] for cn in cns)
+        if have_release and fl:
+            plan[vurl] = {p: {"first": [rng.choice(["error", "abort", "error"]) for _ in range(rng.randint(1, 5))],
+                              "rest": "missing"} for p in fl}
+            expect_ok = {r["url"] for r in scn2.repos}
     res = R.run_observed(scn2, base, plan=plan, files_by_url=files2)
     jc = {"scenario": {"repos": scn.repos, "nthreads": scn.nthreads}, "case": case, "plan": plan}
     rep.case(("c02", kind, res.code, tuple(sorted((u, bool(v)) for u, v in res.results.items())), len(scn.repos)),
@@ -191,7 +200,7 @@ def run(rep: C.Report):
     rep.rule = ("two-run histories (fault-free V1, then V2 under a constructed plan): clean, transient-only, "
                 "every variant+alias of one selected index persistently failing, all release flavours failing, "
                 "InRelease/Release disagreeing, second repository unaffected, hostile index that makes the "
-                "parser raise, failing path under ignore_errors, optional flavours 404; distinct by "
+                "parser raise, failing path under ignore_errors, optional flavours 404 (also after transient errors); distinct by "
                 "(kind, exit, per-repository results, #repos)")
     rep.assumptions += ["'required file persistently fails' is established by construction of the plan, not by a "
                         "general plan-level predicate"]
